@@ -20,7 +20,12 @@ static Result run_codec(const Case &c) {
     Config g = cfg_from(c);
     if (ref::is_isa(g.backend) && !isa_available()) { r.skipped = true; return r; }
     std::vector<uint8_t> data = expand_buffer(c, "data");
-    Instance in(g);
+    bool pooled = c.get("pool", 0) != 0;
+    std::unique_ptr<Instance> own;
+    Instance *inp;
+    if (pooled) { inp = pool().get(g); r.window = true; r.cls("pooled_instance"); }
+    else { own.reset(new Instance(g)); inp = own.get(); }
+    Instance &in = *inp;
     if (!in.ok()) { r.fail("create refused a supported configuration rc=" + std::to_string(in.desc)); return r; }
     Stripe s = encode(in.desc, g, data);
     if (s.rc != 0) { r.fail("encode failed rc=" + std::to_string(s.rc)); return r; }
@@ -186,6 +191,7 @@ static Case gen_c01() {
     c.set("force", coin(1, 3) ? 1 : 0);
     c.set("decode", 1);
     c.setl("dests", {});
+    c.set("pool", coin(1, 3) ? 1 : 0);
     return c;
 }
 static Case gen_c02() {
@@ -211,6 +217,7 @@ static Case gen_c02() {
     int nd = (int)pick(0, 3);
     for (int j = 0; j < nd; j++) dests.push_back((int)pick(0, n - 1));
     c.setv("dests", dests);
+    c.set("pool", coin(1, 3) ? 1 : 0);
     return c;
 }
 static Case gen_c03() {
@@ -241,6 +248,7 @@ static Case gen_c03() {
         }
     }
     c.setv("dests", dests);
+    c.set("pool", coin(1, 3) ? 1 : 0);
     return c;
 }
 
@@ -588,6 +596,8 @@ static Case gen_c19() {
     if (coin(1, 3)) dests.push_back((int)pick(0, n - 1));
     c.setv("dests", dests);
     c.set("table_mode", coin(1, 4) ? 1 : 0);
+    c.set("pool", 0);       // the table-encoding knob must stay constant over an instance's life
+    if (c.get("table_mode") == 0 && coin(1, 3)) c.set("pool", 1);
     return c;
 }
 // all erasure sets |E| <= m+1 for both adapters, n <= maxn, every lost destination + one present
